@@ -271,3 +271,176 @@ find_permutations = FunctionContract(
     canary=[("if top != bot:", "if top == bot:"), ("if len(top) != 1 or len(bot) != 1:", "if len(top) != 1 and len(bot) != 1:")],
 )
 CONTRACTS.append(find_permutations)
+
+
+# ------------------------------------------------------------------ ISMAGS._find_neighbor_color_count
+CNode, CColor = TKey('CNode'), TKey('CColor')
+CKey = TTuple(CColor, CColor)                               # (edge colour, node colour)
+CPair = TTuple(CNode, CNode)
+RECS_CNT = [('CNT', [('nb', TSeq(CNode)), ('i', TInt), ('ec', CColor), ('nc', CColor)], TInt,
+             "0 if i <= 0 else CNT(nb, i - 1, ec, nc) + (1 if (ecol(nb[i - 1]) == ec and ncol(nb[i - 1]) == nc) else 0)")]
+
+
+def setup_ncc(cx):
+    nbrs = cx.val('NEIGHBOURS', TSeq(CNode))                # graph[node], in order
+    cx.spec_env['NEIGHBOURS'] = nbrs
+    ncol = cx.uf('ncol', [CNode], CColor)                   # node_color[neighbour]
+    ecol = cx.uf('ecol', [CNode], CColor)                   # the colour of the edge between `node` and that neighbour
+    fwd = cx.uf('stored_forward', [CNode], TBool)           # ... is stored as (node, neighbour) (else as (neighbour, node))
+    node = cx.val('node', CNode)
+
+    def edge_contains(e, t):
+        if not (isinstance(t, tuple) and len(t) == 2 and t[0] is node):
+            raise EngineError('%r in edge_color' % (t,))
+        return wrap(TBool, fwd(to_z3(t[1], CNode)))
+
+    def edge_get(e, t):
+        if not (isinstance(t, tuple) and len(t) == 2):
+            raise EngineError('edge_color[%r]' % (t,))
+        if t[0] is node:
+            e.maybe_raise(fwd(to_z3(t[1], CNode)), 'KeyError')
+            return SV(CColor, ecol(to_z3(t[1], CNode)))
+        if t[1] is node:
+            e.maybe_raise(z3.Not(fwd(to_z3(t[0], CNode))), 'KeyError')
+            return SV(CColor, ecol(to_z3(t[0], CNode)))
+        raise EngineError('edge_color of another edge')
+    edge_color = Obj('edge_color', __contains__=Builtin(edge_contains, 'in edge_color'), __getitem__=Builtin(edge_get, 'edge_color[]'))
+    node_color = Obj('node_color', __getitem__=Builtin(lambda e, n: SV(CColor, ncol(to_z3(n, CNode))), 'node_color[]'))
+    graph = Obj('Graph', __getitem__=Builtin(lambda e, n: nbrs if n is node else (_ for _ in ()).throw(EngineError('graph[other]')), 'graph[]'))
+
+    def counter(e):
+        b = Box(TMap(CKey, TInt))
+        b.counter = True                                    # collections.Counter: a missing key counts 0
+        return b
+    cx.spec_env['Counter'] = Builtin(counter, 'Counter')
+    return dict(graph=graph, node=node, node_color=node_color, edge_color=edge_color)
+
+
+neighbor_color_count = FunctionContract(
+    F, 'ISMAGS._find_neighbor_color_count', 'C06', setup=setup_ncc, spec_recs=RECS_CNT, spec_env=dict(CColor=CColor),
+    locals=dict(counts=TMap(CKey, TInt)), result_ty=TMap(CKey, TInt),
+    ensures=[
+        # for every (edge colour, node colour): the number of neighbours of that node colour joined by an edge of that edge colour
+        "forall(lambda ec, nc: (result[(ec, nc)] if (ec, nc) in result else 0) == CNT(NEIGHBOURS, len(NEIGHBOURS), ec, nc), CColor, CColor)",
+        # only pairs that occur are recorded
+        "forall(lambda ec, nc: implies((ec, nc) in result, result[(ec, nc)] >= 1), CColor, CColor)",
+    ],
+    loops={'L1': LoopSpec(inv=["forall(lambda ec, nc: (counts[(ec, nc)] if (ec, nc) in counts else 0) == CNT(NEIGHBOURS, _i, ec, nc), CColor, CColor)",
+                               "forall(lambda ec, nc: implies((ec, nc) in counts, counts[(ec, nc)] >= 1), CColor, CColor)"],
+                          modifies=['counts'])},
+    canary=[("counts[e_color, n_color] += 1", "counts[e_color, n_color] = 1"),
+            ("n_color = node_color[neighbor]", "n_color = node_color[node]")],
+)
+CONTRACTS.append(neighbor_color_count)
+
+
+# ------------------------------------------------------------------ ISMAGS._get_lookahead_candidates: who can take whose place, one edge ahead
+GNodeL, SNodeL = TKey('GNodeL'), TKey('SNodeL')
+CountMap = TMap(CKey, TInt)
+CountMap.counter = True                                     # values of this type are collections.Counter objects: a missing key reads as 0
+
+
+def setup_lac(cx):
+    GN = cx.val('GRAPH_NODES', TSeq(GNodeL))                # the nodes of the graph, in order
+    SN = cx.val('PATTERN_NODES', TSeq(SNodeL))              # the nodes of the pattern, in order
+    ecompat, ncompat = cx.val('ECOMPAT', TMap(CColor, CColor)), cx.val('NCOMPAT', TMap(CColor, CColor))
+    cx.spec_env.update(GRAPH_NODES=GN, PATTERN_NODES=SN, ECOMPAT=ecompat, NCOMPAT=ncompat)
+    # _find_neighbor_color_count by its contract (proved above): for every (edge colour, node colour) the number of such
+    # neighbours, pairs that do not occur are not recorded
+    gcount = cx.uf('gcount', [GNodeL], CountMap)
+    scount = cx.uf('scount', [SNodeL], CountMap)
+    g_, s_ = z3.Const('lg', GNodeL.sort()), z3.Const('ls', SNodeL.sort())
+    k_ = z3.Const('lk', CKey.sort())
+    cx.assume(z3.ForAll([g_], CountMap.inv(gcount(g_))))
+    cx.assume(z3.ForAll([s_], CountMap.inv(scount(s_))))
+    cx.assume(z3.ForAll([g_, k_], z3.Implies(CountMap.has(gcount(g_), k_), CountMap.at(gcount(g_), k_) >= 1)))
+    cx.assume(z3.ForAll([s_, k_], z3.Implies(CountMap.has(scount(s_), k_), CountMap.at(scount(s_), k_) >= 1)))
+    graph, subgraph = Obj('graph'), Obj('subgraph')
+    graph.__dict__['iter'], subgraph.__dict__['iter'] = GN, SN
+    gnc, gec, snc, sec = Obj('_gn_colors'), Obj('_ge_colors'), Obj('_sgn_colors'), Obj('_sge_colors')
+
+    def count(e, g, node, ncol, ecol):
+        if g is graph and ncol is gnc and ecol is gec:
+            b = Box(CountMap, gcount(to_z3(node, GNodeL)))
+        elif g is subgraph and ncol is snc and ecol is sec:
+            b = Box(CountMap, scount(to_z3(node, SNodeL)))
+        else:
+            raise EngineError('_find_neighbor_color_count with other colourings')
+        b.counter = True
+        return b
+
+    def counter(e):
+        b = Box(CountMap)
+        b.counter = True
+        return b
+    cx.spec_env['Counter'] = Builtin(counter, 'Counter')
+    self = Obj('ISMAGS', graph=graph, subgraph=subgraph, _gn_colors=gnc, _ge_colors=gec, _sgn_colors=snc, _sge_colors=sec,
+               _edge_compatibility=ecompat, _node_compatibility=ncompat, _find_neighbor_color_count=Builtin(count, 'self._find_neighbor_color_count'))
+    return dict(self=self)
+
+
+SPEC_LAC = {
+    'cnt': "lambda M, k: M[k] if k in M else 0",
+    # the graph node has, for every kind of neighbour of the pattern node that has a counterpart in the graph's colours, at least as
+    # many neighbours of the counterpart kind
+    'fits': "lambda s, g: forall(lambda ec, nc: implies((ec, nc) in scount(s) and ec in ECOMPAT and nc in NCOMPAT, "
+            "scount(s)[(ec, nc)] <= cnt(gcount(g), (ECOMPAT[ec], NCOMPAT[nc]))), CColor, CColor)",
+    'cand': "lambda C, s, g: s in C and g in C[s]",
+}
+lookahead = FunctionContract(
+    F, 'ISMAGS._get_lookahead_candidates', 'C06', setup=setup_lac, spec_defs=SPEC_LAC,
+    spec_env=dict(CColor=CColor, GNodeL=GNodeL, SNodeL=SNodeL, CKey=CKey),
+    locals=dict(g_counts=TMap(GNodeL, CountMap), candidates=TMap(SNodeL, TSet(GNodeL)), new_sg_count=CountMap),
+    requires=[
+        # different nodes, and colour translations that do not merge colours
+        "forall(lambda i, j: implies(0 <= i and i < j and j < len(GRAPH_NODES), GRAPH_NODES[i] != GRAPH_NODES[j]))",
+        "forall(lambda i, j: implies(0 <= i and i < j and j < len(PATTERN_NODES), PATTERN_NODES[i] != PATTERN_NODES[j]))",
+        "forall(lambda a, b: implies(a in ECOMPAT and b in ECOMPAT and a != b, ECOMPAT[a] != ECOMPAT[b]), CColor, CColor)",
+        "forall(lambda a, b: implies(a in NCOMPAT and b in NCOMPAT and a != b, NCOMPAT[a] != NCOMPAT[b]), CColor, CColor)",
+    ],
+    ensures=[
+        # a graph node is a candidate for a pattern node exactly when it fits - for every graph node, also one without any edge
+        "forall(lambda i, j: implies(0 <= i and i < len(PATTERN_NODES) and 0 <= j and j < len(GRAPH_NODES), "
+        "   cand(result, PATTERN_NODES[i], GRAPH_NODES[j]) == fits(PATTERN_NODES[i], GRAPH_NODES[j])))",
+    ],
+    loops={
+        'L1': LoopSpec(inv=["forall(lambda j: implies(0 <= j and j < _i, GRAPH_NODES[j] in g_counts and g_counts[GRAPH_NODES[j]] == gcount(GRAPH_NODES[j])))",
+                            "forall(lambda g: implies(g in g_counts, exists(lambda j: 0 <= j and j < _i and GRAPH_NODES[j] == g)), GNodeL)"],
+                       modifies=['g_counts']),
+        'L2': LoopSpec(inv=["forall(lambda i, j: implies(0 <= i and i < _i and 0 <= j and j < len(GRAPH_NODES), "
+                            "   cand(candidates, PATTERN_NODES[i], GRAPH_NODES[j]) == fits(PATTERN_NODES[i], GRAPH_NODES[j])))",
+                            "forall(lambda s: implies(s in candidates, exists(lambda i: 0 <= i and i < _i and PATTERN_NODES[i] == s)), SNodeL)"],
+                       modifies=['candidates']),
+        'L2.1': LoopSpec(inv=[
+            # the translated counts of the kinds handled so far
+            "forall(lambda ec, nc: implies((ec, nc) in sg_count and posof(sg_count, (ec, nc)) < _i and ec in ECOMPAT and nc in NCOMPAT, "
+            "   (ECOMPAT[ec], NCOMPAT[nc]) in new_sg_count and new_sg_count[(ECOMPAT[ec], NCOMPAT[nc])] == sg_count[(ec, nc)]), CColor, CColor)",
+            "forall(lambda k: implies(k in new_sg_count, exists(lambda ec, nc: (ec, nc) in sg_count and posof(sg_count, (ec, nc)) < _i and ec in ECOMPAT and "
+            "   nc in NCOMPAT and k == (ECOMPAT[ec], NCOMPAT[nc]), CColor, CColor)), CKey)"],
+            modifies=['new_sg_count']),
+        'L2.2': LoopSpec(inv=[
+            "forall(lambda j: implies(0 <= j and j < len(GRAPH_NODES) and posof(g_counts, GRAPH_NODES[j]) < _i, "
+            "   cand(candidates, sgn, GRAPH_NODES[j]) == fits(sgn, GRAPH_NODES[j])))",
+            "forall(lambda j: implies(0 <= j and j < len(GRAPH_NODES) and posof(g_counts, GRAPH_NODES[j]) >= _i, not cand(candidates, sgn, GRAPH_NODES[j])))",
+            "forall(lambda s, g: implies(s != sgn, cand(candidates, s, g) == cand(g_C, s, g)), SNodeL, GNodeL)",
+            "forall(lambda s: implies(s in candidates, s == sgn or s in g_C), SNodeL)"],
+            modifies=['candidates'],
+            # what the translated counts say about an arbitrary graph node (proved once, used for every node of the loop)
+            ghost_init="g_C = dict(candidates)\n"
+                       "prove(forall(lambda g: forall(lambda k: implies(k in new_sg_count, new_sg_count[k] <= cnt(gcount(g), k)), CKey) == fits(sgn, g), GNodeL), "
+                       "      'translated-counts-say-fits')",
+            ghost_pre="prove(exists(lambda j: 0 <= j and j < len(GRAPH_NODES) and GRAPH_NODES[j] == gn and posof(g_counts, gn) == _i), 'a-graph-node')\n"
+                      "prove(g_count == gcount(gn), 'counts-of-this-node')\n"
+                      "prove(forall(lambda k: implies(k in new_sg_count, new_sg_count[k] <= cnt(g_count, k)), CKey) == fits(sgn, gn), 'this-node')\n"
+                      "prove(forall(lambda q: implies(0 <= q and q < len(new_sg_count), new_sg_count[keyat(new_sg_count, q)] <= cnt(g_count, keyat(new_sg_count, q)))) == "
+                      "      forall(lambda k: implies(k in new_sg_count, new_sg_count[k] <= cnt(g_count, k)), CKey), 'by-position-or-by-key')\n"
+                      "g_B = dict(candidates)",
+            ghost_end="prove(cand(candidates, sgn, gn) == fits(sgn, gn), 'this-node-decided')\n"
+                      "prove(forall(lambda g: implies(g != gn, cand(candidates, sgn, g) == cand(g_B, sgn, g)), GNodeL), 'other-nodes-as-before')\n"
+                      "prove(forall(lambda j: implies(0 <= j and j < len(GRAPH_NODES) and GRAPH_NODES[j] != gn, posof(g_counts, GRAPH_NODES[j]) != _i)), 'one-node-per-position')",
+            locals=dict(g_C=TMap(SNodeL, TSet(GNodeL)), g_B=TMap(SNodeL, TSet(GNodeL)))),
+    },
+    canary=[("if all(new_sg_count[x] <= g_count[x] for x in new_sg_count):", "if any(new_sg_count[x] <= g_count[x] for x in new_sg_count):"),
+            ("new_sg_count[ge_color, gn_color] = count", "new_sg_count[ge_color, gn_color] = 1")],
+)
+CONTRACTS.append(lookahead)
